@@ -29,7 +29,7 @@ impl Monitor for C20 {
         if tier == Tier::Sanitizer {
             vec!["restores_compared"]
         } else {
-            vec!["restores_compared", "pending_full_15", "pending_empty", "pending_partial", "ack_owed_at_snapshot", "fcnt_down_none_at_snapshot", "counter_at_16bit_boundary", "adr_cnt_ge_64", "malformed_rejected", "malformed_accepted_battery_ok", "steps_compared", "restored_over_another_session"]
+            vec!["restores_compared", "pending_full_15", "pending_empty", "pending_partial", "ack_owed_at_snapshot", "fcnt_down_none_at_snapshot", "counter_at_16bit_boundary", "adr_cnt_ge_64", "malformed_rejected", "malformed_accepted_battery_ok", "steps_compared", "restored_over_another_session", "mid_transaction_snapshots"]
         }
     }
 
@@ -58,21 +58,31 @@ struct Obs {
     tx: Vec<Vec<u8>>,
     downlinks: Vec<(u8, Vec<u8>)>,
     session: Option<String>,
+    /// the session's derived Debug form
+    debug: Option<String>,
     /// accessor view: (fcnt_up, fcnt_down incl. the None / Some(0) distinction)
     counters: (Option<u32>, Option<Option<u32>>),
 }
 
 fn run_steps(dev: &mut Dev, steps: &[Step]) -> Vec<Obs> {
+    let mut mid = vec![];
+    run_steps_mid(dev, steps, &mut mid)
+}
+
+/// `mid` collects what the application read of the session in the middle of transactions.
+fn run_steps_mid(dev: &mut Dev, steps: &[Step], mid: &mut Vec<String>) -> Vec<Obs> {
     let mut out = vec![];
     for st in steps {
         let ev0 = dev.ev_len();
         let resp = dev.transact(Action::Send { data: &st.data, port: st.port, confirmed: st.confirmed }, &st.script);
+        mid.extend(dev.window_notes.iter().filter(|n| n.starts_with("snap@")).cloned());
         let tx: Vec<Vec<u8>> = dev.tx_since(ev0).into_iter().filter_map(|e| if let Ev::Tx { bytes, .. } = e { Some(bytes) } else { None }).collect();
         let downlinks = dev.take_downlinks();
         let session = dev.session_json().map(|j| serde_json::to_string(&j).unwrap());
+        let debug = dev.session_debug();
         let stop = matches!(resp, Resp::Panic(..));
         let counters = (dev.fcnt_up(), dev.fcnt_down());
-        out.push(Obs { resp, tx, downlinks, session, counters });
+        out.push(Obs { resp, tx, downlinks, session, debug, counters });
         if stop {
             break;
         }
@@ -213,6 +223,11 @@ fn history_case(front: Front, reg: Reg, rng: &mut Prng, col: &mut Collector) {
             }
             _ => {}
         }
+        // (state-machine front-end: the application may read the session while the transaction runs)
+        let mut script = script;
+        if front == Front::Nb && rng.bool() {
+            script.intrude.push((rng.range(1, 6) as u32, Intrusion::SessionSnapshot));
+        }
         steps.push(Step { data, port: if rng.chance(1, 8) { 0 } else { port }, confirmed: rng.chance(1, 4), script, note });
         // port 0 uplinks must carry no application payload
         if steps.last().unwrap().port == 0 {
@@ -235,8 +250,25 @@ fn history_case(front: Front, reg: Reg, rng: &mut Prng, col: &mut Collector) {
 
     // ---- the original's run, with the session document after every step -------------------------------
     let j0 = a.session_json().map(|j| serde_json::to_string(&j).unwrap());
+    let d0 = a.session_debug();
     let c0 = (a.fcnt_up(), a.fcnt_down());
-    let obs_a = run_steps(&mut a, &steps);
+    let mut mid: Vec<String> = vec![];
+    let obs_a = run_steps_mid(&mut a, &steps, &mut mid);
+    // "at any point of any history": what was read in the middle of a transaction is a session of
+    // the same keys and address that deserialises
+    for m in &mid {
+        col.event("mid_transaction_snapshots");
+        let body = m.splitn(2, ':').nth(1).unwrap_or("");
+        let ok = serde_json::from_str::<lorawan_device::mac::Session>(body).is_ok();
+        if !ok {
+            col.violation(
+                &format!("C20|no-session-mid-transaction|{}", if body == "NONE" { "none" } else { "unusable" }),
+                "in the middle of a transaction the device has no session to persist (or one that does not round-trip)",
+                json!({"front": front.name(), "region": reg.name(), "read": body}),
+            );
+            break;
+        }
+    }
     if let Some(Obs { resp: Resp::Panic(m, l), .. }) = obs_a.last() {
         col.violation(&format!("C20|panic|original|{}", short_loc(l)), "the original device panicked during the history", json!({"msg": m, "loc": l, "steps": steps.iter().map(|s| s.note).collect::<Vec<_>>()}));
         return;
@@ -244,6 +276,8 @@ fn history_case(front: Front, reg: Reg, rng: &mut Prng, col: &mut Collector) {
     // snapshots: before step 0 and after every step
     let mut docs: Vec<Option<String>> = vec![j0];
     docs.extend(obs_a.iter().map(|o| o.session.clone()));
+    let mut debugs: Vec<Option<String>> = vec![d0];
+    debugs.extend(obs_a.iter().map(|o| o.debug.clone()));
     let mut counters_at: Vec<(Option<u32>, Option<Option<u32>>)> = vec![c0];
     counters_at.extend(obs_a.iter().map(|o| o.counters));
     let notes: Vec<&str> = steps.iter().map(|s| s.note).collect();
@@ -280,6 +314,18 @@ fn history_case(front: Front, reg: Reg, rng: &mut Prng, col: &mut Collector) {
                 continue;
             }
         };
+        // equal in every field, also one a serialised form might not carry: the derived Debug forms
+        // of the original's session and of the restored one are the same text
+        if let Some(dbg) = &debugs[k] {
+            let got = format!("{:?}", restored);
+            if &got != dbg {
+                col.violation(
+                    &format!("C20|restored-field-differs|debug-form|{}", sc.split('|').next().unwrap_or("")),
+                    "the restored session is not equal to the original in every field (their Debug forms differ)",
+                    ctx("debug", json!({"original": dbg, "restored": got})),
+                );
+            }
+        }
         // (compared as JSON values: the harness' own document went through serde_json::Value,
         // which orders keys alphabetically)
         let again = serde_json::to_string(&restored).unwrap();
@@ -423,7 +469,8 @@ fn mutate(doc: &str, kind: u64, rng: &mut Prng) -> (String, &'static str) {
         }
         2 => {
             let f = *rng.pick(&fields);
-            let val = v.as_object_mut().unwrap().remove(f).unwrap();
+            // (a field the document does not have is simply added under the misspelt name)
+            let val = v.as_object_mut().unwrap().remove(f).unwrap_or(json!(0));
             v[format!("{}x", f)] = val;
             (v.to_string(), "rename-field")
         }
